@@ -103,6 +103,13 @@ Fixpoint nodflt_node (n : dnode) : bool :=
   match n with DN _ _ d _ ch => negb d && forallb nodflt_node ch end.
 Definition nodflt (f : forest) : bool := forallb nodflt_node f.
 
+(* the explicit part of a tree: nodes flagged LYD_DEFAULT (implicit defaults, containers holding only defaults) dropped *)
+Fixpoint explicit_node (n : vnode) : list dnode :=
+  match n with
+  | VN s v d _ m ch => if d then [] else [DN s v d m (flat_map explicit_node ch)]
+  end.
+Definition explicit (f : vforest) : forest := flat_map explicit_node f.
+
 Fixpoint vsize (n : vnode) : nat :=
   match n with VN _ _ _ _ _ ch => S (fold_right (fun c a => (vsize c + a)%nat) O ch) end.
 Definition vfsize (f : vforest) : nat := fold_right (fun c a => (vsize c + a)%nat) O f.
